@@ -315,7 +315,7 @@ class C17(PropBase):
         quick = tier == "quick"
         out = []
         # (a) single figures at every printed position
-        n_fig = 1300 if quick else 60000
+        n_fig = 2000 if quick else 150000
         for _ in range(n_fig):
             mn, mx = gen_scale(rng)
             f = None
@@ -338,7 +338,7 @@ class C17(PropBase):
             for mx in range(0, 29):
                 for mn in range(0, mx + 1):
                     for g in FIGS:
-                        for _ in range(4):
+                        for _ in range(8):
                             f = fig_ok(g(rng, mn, mx))
                             if f:
                                 out.append(self.mk_fmt(f[1], mn, mx, "allpairs:" + f[0]))
@@ -353,10 +353,10 @@ class C17(PropBase):
         for (mn, mx) in [(3, 2), (29, 29), (0, 29), (28, 27), (1, 0), (30, 40)]:
             out.append(self.mk_fmt("1.5", mn, mx, "bad-scale", journal=False))
         # (b) whole reports
-        n_parts = 60 if quick else 3000
+        n_parts = 120 if quick else 5000
         for _ in range(n_parts):
             out.append(self.mk_parts_total(rng))
-        n_j = 260 if quick else 12000
+        n_j = 400 if quick else 20000
         for _ in range(n_j):
             out.append(self.mk_journal(rng))
         return out
